@@ -79,6 +79,10 @@ def replay(run, cache, tv):
         Jli = V0 + nu * np.array(tv["W1"], float) / (2 * tv["n"])
         Jri = V0 + nu * np.array(tv["W1r"], float) / (2 * tv["n"])
         out = call_alg(run, cache, "so3", nu * v, tv)
+        if cell == "nearturn":
+            # within 1e-4 rad of the full turn the inverse-Jacobian coefficient itself (it contains cos(theta) - 1 = -5e-9, known
+            # to 1e-16) is only determined to ~1e-8 in doubles: compare to 1e-6 (a capped / truncated coefficient is off by tens of %)
+            cmp = E.Cmp(run, tol=1e-6)
         for nm, got, want in (("left_jacobian", out[0], Jl), ("left_jacobian_inv", out[1], Jli),
                               ("right_jacobian", out[2], Jr), ("right_jacobian_inv", out[3], Jri)):
             cmp.vec(f"so3/{nm}/closed_form/{cell}", f"so(3) {nm} differs from the exact differential of exp", got, want, tv)
